@@ -13,6 +13,8 @@ func main() {
 	switch os.Args[1] {
 	case "dump":
 		cmdDump(os.Args[2:])
+	case "check":
+		os.Exit(cmdCheck(os.Args[2:]))
 	default:
 		fmt.Fprintln(os.Stderr, "unknown command")
 		os.Exit(2)
